@@ -129,6 +129,11 @@ func Mint(parent *Ent, s CertSpec) *Ent {
 		if s.PathLen == 0 {
 			tmpl.MaxPathLen = 2
 		}
+	case "ca-codesigning-only": // a CA whose extended key usage restricts what it may issue to code signing
+		tmpl.IsCA = true
+		tmpl.KeyUsage = x509.KeyUsageCertSign
+		tmpl.MaxPathLen = s.PathLen
+		tmpl.ExtKeyUsage = []x509.ExtKeyUsage{x509.ExtKeyUsageCodeSigning}
 	case "codesign":
 		tmpl.KeyUsage = x509.KeyUsageDigitalSignature
 		tmpl.ExtKeyUsage = []x509.ExtKeyUsage{x509.ExtKeyUsageCodeSigning}
